@@ -12,7 +12,7 @@
 EXTENDS Integers, Sequences, FiniteSets, TLC
 CONSTANTS MaxChunks
 KeyLens == {1, 12, 25}
-Chunks == { <<"v">>, <<":">>, <<" ", "#", " ">>, <<",">>, <<"-">>, <<"\"">>,
+Chunks == { <<"v">>, <<":">>, <<" ", "#", " ">>, <<"#">>, <<",">>, <<"-">>, <<"\"">>,
             <<"-", "-", "-", "-", "-", "-", "-", "-", "-", "-">>, <<"v", ":", "v">> }
 VARIABLES klen, val, n
 vars == <<klen, val, n>>
